@@ -30,6 +30,8 @@ def make_case(rng, kind=None, nd=None, npoints=None, positive=False):
     nf = int(rng.integers(20, 41))
     npnt = int(npoints or rng.integers(1, 9))
     f = np.linspace(rng.uniform(0.03, 0.05), rng.uniform(0.5, 1.0), nf)
+    if kind == "young":
+        f = np.linspace(rng.uniform(0.05, 0.1), rng.uniform(1.2, 1.5), nf)
     d = np.arange(nd) * 360.0 / nd
     E = np.zeros((npnt, nf, nd))
     u10 = np.empty(npnt)
@@ -43,7 +45,15 @@ def make_case(rng, kind=None, nd=None, npoints=None, positive=False):
             wdir[i] = (float(rng.integers(0, nd)) + 0.5) * 360.0 / nd  # exactly between two bins
         else:
             wdir[i] = float(rng.uniform(0, 360))
-        if kind in ("windsea", "mixed", "veering"):
+        if kind == "young":
+            # very young, short-fetch sea in a light wind: peak at 0.55-0.7 Hz, steep enough to break
+            u10[i] = float(rng.uniform(3.5, 7.0))
+            fp = float(rng.uniform(0.55, 0.7))
+            lp = G / (2 * np.pi * fp ** 2)
+            hs = float(lp * rng.uniform(0.04, 0.07))
+            e = jonswap(f, fp, hs, gamma=float(rng.uniform(1.0, 3.3)))
+            E[i] = e[:, None] * spreading(d, wdir[i] + rng.uniform(-20, 20), float(rng.uniform(2, 8)))[None, :]
+        elif kind in ("windsea", "mixed", "veering"):
             # young, steep wind sea roughly aligned with the wind
             fp = float(np.clip(G / (2 * np.pi * u10[i]) * rng.uniform(0.9, 1.6), 0.08, 0.35))
             lp = G / (2 * np.pi * fp ** 2)
